@@ -207,7 +207,25 @@ var styleFrags = []string{"color: red", "color: RED", "color:#fff", "width: 10px
 	"color: #fff", "color: #FFF", "width: 2px", "width: auto", "background: RED", "background: \\72 ed", "background: Green", "color: gree\\6E", "color: \\52 ed", "background: ur\\6C(http://x/y)", "color: blue", "color: \\000062lue", "width: \\32 px"}
 var relFrags = []string{"nofollow", "noopener", "noreferrer", "xnofollowx", "nonoopener", "NOFOLLOW", "a b", "nofollow noopener noreferrer", "", "me"}
 
+// attrValue: a value for the attribute; one time in six padded with white space (value patterns
+// are judged on the value as it is, not on a trimmed copy)
 func attrValue(rng *rand.Rand, key string) string {
+	v := attrValue0(rng, key)
+	if rng.Intn(6) == 0 {
+		ws := []string{" ", "\n", "\t", "\u00a0", "\r", "  ", "\u2003"}
+		switch rng.Intn(3) {
+		case 0:
+			v = pick(rng, ws) + v
+		case 1:
+			v = v + pick(rng, ws)
+		default:
+			v = pick(rng, ws) + v + pick(rng, ws)
+		}
+	}
+	return v
+}
+
+func attrValue0(rng *rand.Rand, key string) string {
 	switch key {
 	case "href", "src", "cite":
 		return pick(rng, urlFrags)
